@@ -6,11 +6,15 @@ CHECK = {
                  "(2) tables of three/four directly adjacent areas of every kind combination (reads crossing up to four chunks, fault at every chunk); "
                  "(3) re-initialisation histories: every ordered pair (thorough: also every triple) of register lists from a small family initialised "
                  "one after the other on the same area array, then every window; "
-                 "(4) a structured boundary family of large tables (65533..65544 registers, handles/addresses/lengths straddling 2^16)",
+                 "(4) a structured boundary family of large tables (65533..65544 registers, handles/addresses/lengths straddling 2^16; one of 65534); "
+                 "(5) tables with one or two zero-sized areas (no address mapped by them) at every list position and admissible base, every window",
     "rule": "a case is (table or history, operation, window[, fault position]): block read compared word by word with the flat model on an exact-size "
             "heap buffer (under a fired read fault only memory safety, storage purity and 'a reported success holds the stored words' are demanded), "
             "or iteration run under every script (never stop; k-th call returns -1/+1; large tables: first/last call) and compared with the list of "
-            "overlapping registers; every case is non-trivial except those of a history / large table whose (re-)initialisation is refused",
+            "overlapping registers (a negative callback result must be answered with a code other than SUCCESS and the register's address: the statement fixes "
+            "the address, not the enum value); every case is non-trivial except those of a table / history / large table whose (re-)initialisation is "
+            "refused: such a table is not judged (the statement is about initialised tables, what register_init accepts is C04's business), the refusal of a "
+            "first initialisation is recorded as a cap (exhaustive=False, exit 0)",
     "assumptions": ["tables from the small-scope family of harness/regfam.h (<= 3 areas, <= 5 registers, addresses 0..9), plus 320 tables of 3/4 adjacent areas "
                     "(each area callback-backed / memory-backed / not flagged readable / not flagged readable and without read function), plus a reduced family "
                     "at address shifts 0x7ffffffc and 0xfffffff5 (straddling 2^31, ending at 0xfffffffe)",
@@ -18,19 +22,24 @@ CHECK = {
                     "ranges that wrap around the 32-bit address space are outside the statement and not generated",
                     "re-initialisation histories keep the area array and replace the register list (unconstrained 16/32-bit registers; per area: none, "
                     "first word, every word, last word, 32-bit at the base); quick: pairs on layouts B, D, E with the three-filling menu",
-                    "large tables: three shapes, areas memory-backed or callback-backed with computed words; windows start around address/handle 2^16 and the area edges",
+                    "large tables: three shapes, areas memory-backed or callback-backed with computed words; windows start around address/handle 2^16 and the area edges; "
+                    "a library whose handle type cannot count 2^16 registers refuses them (its documented size limit): they are then not judged, the run reports a cap, and "
+                    "only the table of 65534 registers remains; therefore the big-* outcome classes are not required (on the unchanged tree exhaustive=True certifies that "
+                    "every table of the space was initialised and judged)",
+                    "zero-sized areas: a description may hold areas of no words (an optional window configured to size 0); they map no address; they are placed so that "
+                    "the area list stays ascending and non-overlapping (base between the end of the area before and the base of the area behind, both included)",
                     "areas are either memory-backed through reg_mem_read/reg_mem_write or callback-backed with mem == NULL (the two kinds the public macros build); "
                     "a hand-built area with a custom read function AND a non-NULL mem pointer whose answers differ from mem is not generated: the statement does "
                     "not say which of the two is 'the word currently stored there' (register_mcopy and register_init treat mem != NULL as memory-backed); "
                     "building the harness with cflags -DC03_HYBRID_AREAS adds 19 such tables with the read function's answer as the model"],
     "harnesses": [{
         "name": "c03_blockread", "src": "harness/c03_blockread.c", "shape": "espace", "opt": "-O2",
-        "lib": ["src/registers/core.c"], "min_outcomes": 17,
+        "lib": ["src/registers/core.c"], "min_outcomes": 16,
         "require_outcomes": {"any": ["read-ok", "read-empty", "read-unmapped", "read-ok-with-unreadable", "read-ok-no-read-function", "iter-none", "iter-some", "iter-all",
                                      "fault-first-chunk", "fault-later-chunk",
                                      "reinit-read-ok", "reinit-read-unmapped", "reinit-iter-none", "reinit-iter-some", "reinit-iter-all",
-                                     "reinit-iter-from-emptied-area",
-                                     "big-read-ok", "big-read-ok-64k-words", "big-read-unmapped",
-                                     "big-iter-none", "big-iter-below-64k", "big-iter-across-64k", "big-iter-first-handle-from-64k"]},
+                                     "reinit-iter-from-emptied-area"]},
+        # big-* (large tables) and read-ok-across-empty-area (zero-sized areas) are not required: a library that refuses those tables at
+        # register_init (narrower handle type; C04's business) ends them as *-init-refused with a cap, which is not a vacuity failure
     }],
 }
